@@ -23,6 +23,7 @@ def tasks(tier, seed):
     ts += [{"kind": "rnd_cfg", "count": 150 if q else 800, "seed": seed * 10 + i} for i in range(2 if q else 8)]
     ts += [{"kind": "pda", "part": i, "parts": 4, "stride": 40 if q else 4} for i in range(4)]
     ts += [{"kind": "rnd_pda", "count": 80 if q else 500, "seed": seed * 10 + i} for i in range(2 if q else 8)]
+    ts += [{"kind": "nfa_like_pda", "count": 150 if q else 800, "seed": seed * 10 + i} for i in range(2 if q else 8)]
     ts += [{"kind": "tm", "nwork": 1, "gamma": "a_", "lo": 0, "hi": 169, "stride": 1}]
     tot = tmsrc.tm_count(2, "a_")
     ts += [{"kind": "tm", "nwork": 2, "gamma": "a_", "lo": i * (tot // 4), "hi": (i + 1) * (tot // 4),
@@ -131,6 +132,9 @@ def drive(task):
     elif k == "rnd_pda":
         for i in range(task["count"]):
             yield from build_events({"kind": "pda_rnd", "seed": task["seed"] * 100000 + i})
+    elif k == "nfa_like_pda":
+        for i in range(task["count"]):
+            yield from build_events({"kind": "pda_nfa_like", "seed": task["seed"] * 100000 + i})
     elif k == "tm":
         for code in range(task["lo"], task["hi"], task["stride"]):
             yield from build_events({"kind": "tm_code", "nwork": task["nwork"], "gamma": task["gamma"], "code": code})
